@@ -13,8 +13,9 @@ SortSet(S) == IF S = {} THEN <<>> ELSE LET x == CHOOSE y \in S : \A z \in S : y 
 IncLists(S, k) == {SortSet(T) : T \in {U \in SUBSET S : Cardinality(U) <= k}}
 
 MkCall(op, from, ts, tot, mx, fr) ==
-  [op |-> op, from |-> from, tsave |-> ts, tot |-> tot, maxit |-> mx, freqs |-> fr, cfl |-> 1]
+  [op |-> op, from |-> from, tsave |-> ts, tot |-> tot, maxit |-> mx, freqs |-> fr, cfl |-> 1, dtl |-> FALSE]
 WithCfl(c, k) == [c EXCEPT !.cfl = k]
+WithDtl(c) == [c EXCEPT !.dtl = TRUE]
 
 Admissible(ts, tot, mx) == ~(ts = <<>> /\ tot = None /\ mx = None)
 
@@ -47,16 +48,21 @@ ScriptsC08 == {<<a>> : a \in SolveVariants} \cup {<<a, b>> : a \in SolveVariants
               \cup {<<a, WithCfl(b, 2)>> : a \in {v \in SolveVariants : v.tsave = <<>>}, b \in Restarts \cup {Plain}}
               \cup {<<WithCfl(a, 2), b>> : a \in {Plain, MkCall("solve", "f0", <<1, 5>>, None, 3, {})}, b \in Restarts \cup {Plain}}
               \cup {<<Plain, WithCfl(b, 2), c>> : b \in Restarts, c \in Restarts \cup {Plain}}
+              \* the dtlocal directive given to one call and not to the next (and the other way round)
+              \cup {<<WithDtl(a), b>> : a \in {Plain, MkCall("solve", "f0", <<1, 5>>, None, 3, {})}, b \in Restarts \cup {Plain}}
+              \cup {<<Plain, WithDtl(b)>> : b \in Restarts \cup {Plain}}
+              \cup {<<WithDtl(Plain), WithDtl(b), Plain>> : b \in Restarts}
 
 -----------------------------------------------------------------------------
 (* projection of an outcome of the specification onto the observation record of Contract *)
 PTm(o, n) == IF n <= Len(o.traj) THEN o.traj[n].t ELSE o.tfin
 PDm(o, n) == IF n <= Len(o.traj) THEN o.traj[n].d ELSE o.dfin
 RefTag(o, n) == IF kind # "gear" THEN "na" ELSE IF n = 1 THEN o.tag0 ELSE "own"
-Ideal(o, n, s) == LET h == s - PTm(o, n) IN
-                  IF h < 0 THEN <<[h |-> 0, tag |-> "unreachable"]>>
+IdealM(o, n, s, m) == LET h == s - PTm(o, n) IN
+                  IF h < 0 THEN <<[h |-> 0, tag |-> "unreachable", m |-> m]>>
                   ELSE IF h = 0 \/ PDm(o, n) = NaN THEN PDm(o, n)
-                  ELSE Append(PDm(o, n), [h |-> h, tag |-> RefTag(o, n)])
+                  ELSE Append(PDm(o, n), [h |-> h, tag |-> RefTag(o, n), m |-> m])
+Ideal(o, n, s) == IdealM(o, n, s, "g")
 
 Project(o) ==
   [op |-> o.op, t0 |-> o.t0, it0 |-> o.it0, tsave |-> o.tsave, tot |-> o.tot, maxit |-> o.maxit,
@@ -88,7 +94,7 @@ InvC07_finite  == Done => C!C07_finite(Project(Lst))
 (* C08 (ii): the trajectory is the reference trajectory, a function of (initial field, kind, profile, hidden
    state at the call) only -- hence independent of save times and monitors *)
 PureTraj(o) == /\ PTm(o, 1) = o.t0 /\ PDm(o, 1) = o.d0
-               /\ \A n \in 1..o.nit : /\ PDm(o, n + 1) = Ideal(o, n, PTm(o, n) + o.traj[n].dt)
+               /\ \A n \in 1..o.nit : /\ PDm(o, n + 1) = IdealM(o, n, PTm(o, n) + o.traj[n].dt, IF o.dtl THEN "l" ELSE "g")
                                       /\ PTm(o, n + 1) = PTm(o, n) + o.traj[n].dt
                                       /\ o.traj[n].dt = o.cfl * Dt(prof, PTm(o, n))
 InvC08_pure == Done => PureTraj(Lst)
@@ -98,7 +104,7 @@ InvC08_fresh == Done => (Lst.op = "solve" /\ kind = "gear" => Lst.tag0 = "none")
 
 (* C08 (i): same call, same field, same object => same everything *)
 SameCall(a, b) == a.op = "solve" /\ b.op = "solve" /\ a.t0 = b.t0 /\ a.d0 = b.d0 /\ a.tsave = b.tsave
-                  /\ a.tot = b.tot /\ a.maxit = b.maxit /\ a.cfl = b.cfl
+                  /\ a.tot = b.tot /\ a.maxit = b.maxit /\ a.cfl = b.cfl /\ a.dtl = b.dtl
 InvC08_repeat == \A i, j \in 1..Len(hist) :
                     SameCall(hist[i], hist[j]) => /\ hist[i].res = hist[j].res /\ hist[i].traj = hist[j].traj
                                                   /\ hist[i].dfin = hist[j].dfin /\ hist[i].nit = hist[j].nit
@@ -154,7 +160,7 @@ Export == (Done /\ script = <<>> /\ GenFile # "") => CSVWrite("%1$s", <<GenLine(
 (* export of multi-call scripts: the calls and the specification's outcome of each *)
 HistLine == ToJson([kind |-> kind, prof |-> prof, t0 |-> f0.t,
                     calls |-> [k \in 1..Len(hist) |->
-                       [op |-> hist[k].op, cont |-> hist[k].cont, tsave |-> hist[k].tsave, tot |-> hist[k].tot, cfl |-> hist[k].cfl,
+                       [op |-> hist[k].op, cont |-> hist[k].cont, tsave |-> hist[k].tsave, tot |-> hist[k].tot, cfl |-> hist[k].cfl, dtl |-> hist[k].dtl,
                         maxit |-> hist[k].maxit, freqs |-> SortSet(hist[k].freqs),
                         nit |-> hist[k].nit, totnit |-> hist[k].totnit, tfin |-> hist[k].tfin,
                         rest |-> [i \in 1..Len(hist[k].res) |-> hist[k].res[i].t],
